@@ -766,3 +766,22 @@ add("reload-01-hh-phi-upper-bound-exclusive (F4 pre-fix)", ["C10"], "heavyhitter
     "        if isinstance(phi, float_types) and (phi <= 0.0 or phi > 1.0):", "        if isinstance(phi, float_types) and (phi <= 0.0 or phi >= 1.0):", rules=["reload-valid"])
 add("reload-02-hh-phi-default-two-over-width", ["C10"], "heavyhitters",
     "            self.phi = np.float64(1.0 / self.width)", "            self.phi = np.float64(2.0 / self.width)", rules=["reload-valid"])
+
+add("early-01-query-linear-returns-first-zero", ["C01", "C05"], "countmin",
+    "        count = cms[row, buckets[row]]\n        if count < min_count:\n            min_count = count\n    return min_count\n\n\n@njit(\n    types.void(\n        uint32[:, :],",
+    "        count = cms[row, buckets[row]]\n        if count == 0:\n            return count\n        if count < min_count:\n            min_count = count\n    return min_count\n\n\n@njit(\n    types.void(\n        uint32[:, :],", rules=["qmin"],
+    note="returns the right minimum but leaves the bucket scratch array half-filled for the add that follows")
+add("early-02-maxcount-returns-first-match", ["C04", "C13"], "heavyhitters",
+    "            max_count = lhh_count[row, col]\n\n    return max_count", "            max_count = lhh_count[row, col]\n            return max_count\n\n    return max_count", rules=["scan-all"])
+add("early-03-hll-add-skips-low-ranks", ["C02"], "hyperloglog",
+    "    rank = _n_leading_zeros64(bits) - p + 1\n    registers[reg_idx]", "    rank = _n_leading_zeros64(bits) - p + 1\n    if rank < 2 and registers[reg_idx] > 0:\n        return None\n    registers[reg_idx]", kind="E")
+add("early-04-hll-add-skips-some-keys", ["C02"], "hyperloglog",
+    "    rank = _n_leading_zeros64(bits) - p + 1\n    registers[reg_idx]", "    rank = _n_leading_zeros64(bits) - p + 1\n    if rank > 40:\n        return None\n    registers[reg_idx]", rules=["join"])
+add("observers-01-nadded-reads-slot1", ["C05", "C08", "C10"], "countmin",
+    "        return self.n_added_records[0]", "        return self.n_added_records[1]", rules=["observers"])
+
+add("bm-08-merge-replacement-partial-key-copy", ["C03", "C04"], "heavyhitters",
+    "                    lhh[row, col] = other_lhh[row, col]\n                    key_lens[row, col] = other_key_lens[row, col]",
+    "                    kl = other_key_lens[row, col]\n                    lhh[row, col, :kl] = other_lhh[row, col, :kl]\n                    key_lens[row, col] = kl", rules=["bm-table"])
+add("bm-09-add-replacement-partial-key-copy", ["C03", "C04"], "heavyhitters",
+    "                lhh[row, col, :] = key_array\n", "                lhh[row, col, :key_len] = key_array[:key_len]\n", rules=["bm-table"])
